@@ -642,7 +642,12 @@ class Machine:
             kw["sill"] = float(m.sill)
         kw["nugget"] = rs.choice([True, False])
         m2 = cm.build_model(self.cfg["model"])
-        res = m2.fit_variogram(xa, ya, return_r2=True, **kw)
+        try:
+            res = m2.fit_variogram(xa, ya, return_r2=True, **kw)
+        except (RuntimeError, ValueError):
+            # optimizer did not converge / refused: not an aliasing matter, ledger still checked
+            self.ctx.probe("fit_refused")
+            return
         self.track(res[1], "returned:pcov", site, "result")
 
     def _c_normalizer(self, op, rs, site):
